@@ -40,18 +40,27 @@ def loc_line(src, loc):
 
 
 def verdict(src, level, debug):
+    """What a user of the compiler sees (qbee/main.py): Compiler.compile, then the
+    module is assembled with bytes(code).  An exception of the assembling step is
+    reported with stage='assemble' (compile() itself had accepted the text)."""
     try:
-        Compiler('qvm', optimization_level=level, debug_info=debug).compile(src)
-        return {'v': 'ok'}
+        code = Compiler('qvm', optimization_level=level, debug_info=debug).compile(src)
     except QSyntaxError as e:
         return {'v': 'syntax', 'msg': e.msg, 'loc': e.loc_start, 'line': loc_line(src, e.loc_start)}
     except CompileError as e:
         return {'v': 'compile', 'code': e.code.name, 'msg': e.msg, 'loc': e.loc_start,
                 'line': loc_line(src, e.loc_start)}
     except RecursionError:
-        return {'v': 'exc', 'exc': 'RecursionError', 'where': None, 'msg': ''}
+        return {'v': 'exc', 'exc': 'RecursionError', 'where': None, 'msg': '', 'stage': 'compile'}
     except Exception as e:  # noqa: internal exception of the compiler = observable behaviour
-        return {'v': 'exc', 'exc': type(e).__name__, 'where': _where(e), 'msg': str(e)[:160]}
+        return {'v': 'exc', 'exc': type(e).__name__, 'where': _where(e), 'msg': str(e)[:160],
+                'stage': 'compile'}
+    try:
+        bytes(code)
+        return {'v': 'ok'}
+    except Exception as e:  # noqa
+        return {'v': 'exc', 'exc': type(e).__name__, 'where': _where(e), 'msg': str(e)[:160],
+                'stage': 'assemble'}
 
 
 def compile_cfgs(case):
@@ -193,10 +202,95 @@ def blocks_case(case):
     except Exception as e:  # noqa
         out['parse'] = _err_of(e, src)
     try:
-        Compiler('qvm', optimization_level=case.get('level', 0),
-                 debug_info=bool(case.get('debug', False))).compile(src)
+        code = Compiler('qvm', optimization_level=case.get('level', 0),
+                        debug_info=bool(case.get('debug', False))).compile(src)
+        bytes(code)
         out['front'] = [0]
     except Exception as e:  # noqa
         out['front'] = _err_of(e, src)
         out['front_exc'] = type(e).__name__
     return out
+
+
+# ---------------------------------------------------------------------------
+# translator tie: the operator typing decision of the code as a finite table
+
+def type_table(case=None):
+    """BinaryOp(...).type, UnaryOp(...).type and the Pass2 operator checks
+    (process_binary_op_pre / process_unary_op_pre) evaluated on every operator x
+    every pair of type kinds; Type.is_coercible_to on every pair.  Fail-closed:
+    an unknown operator / type / exception class aborts."""
+    from qbee.expr import Type, Operator, BinaryOp, UnaryOp, Expr
+    from qbee.compiler import Pass2, CompilationUnit
+    from qbee.exceptions import ErrorCode
+
+    class K(Expr):
+        child_fields = []
+        is_literal = False
+        is_const = False
+
+        def __init__(self, t):
+            self._t = t
+
+        @property
+        def type(self):
+            return self._t
+
+    kinds = [Type.INTEGER, Type.LONG, Type.SINGLE, Type.DOUBLE, Type.STRING,
+             Type.from_name('verifu'), Type.from_name('verifv')]
+    names = ['INTEGER', 'LONG', 'SINGLE', 'DOUBLE', 'STRING', 'USER:verifu', 'USER:verifv']
+
+    def code_of(t):
+        if t._type.name == 'UNKNOWN':
+            return 0
+        for i, k in enumerate(kinds):
+            if t == k:
+                return i + 1
+        raise RuntimeError(f'type outside the table domain: {t!r}')
+
+    p2 = Pass2(CompilationUnit())
+
+    def checked(fn, node):
+        try:
+            fn(node)
+            return 0
+        except CompileError as e:
+            if e.code != ErrorCode.TYPE_MISMATCH:
+                raise RuntimeError(f'unexpected error code {e.code}')
+            return 1
+
+    def typ(node):
+        try:
+            t = node.type
+        except (ValueError, AssertionError, AttributeError, KeyError, TypeError):
+            return -1
+        return code_of(t)
+
+    ops = sorted(Operator, key=lambda o: o.value)
+    binops, unops = [], []
+    for op in ops:
+        if op.is_unary:
+            for i, a in enumerate(kinds):
+                n = UnaryOp(K(a), op)
+                unops.append([op.value, i + 1, typ(n), checked(p2.process_unary_op_pre, n)])
+        else:
+            for i, a in enumerate(kinds):
+                for j, b in enumerate(kinds):
+                    n = BinaryOp(K(a), K(b), op)
+                    binops.append([op.value, i + 1, j + 1, typ(n),
+                                   checked(p2.process_binary_op_pre, n)])
+    coerce = []
+    for i, a in enumerate(kinds):
+        for j, b in enumerate(kinds):
+            coerce.append([i + 1, j + 1, 1 if a.is_coercible_to(b) else 0])
+    tokens = {}
+    for tok in ['+', '-', '*', '/', 'mod', '\\', '^', '=', '<>', '<', '>', '<=', '>=',
+                'and', 'or', 'xor', 'eqv', 'imp']:
+        tokens[str(Operator.binary_op_from_token(tok).value)] = tok
+    utokens = {}
+    for tok in ['not', '-', '+']:
+        utokens[str(Operator.unary_op_from_token(tok).value)] = tok
+    return {'ops': [[o.value, o.name, 1 if o.is_unary else 0, 1 if o.is_comparison else 0,
+                     1 if o.is_logical else 0] for o in ops],
+            'kinds': names, 'binops': binops, 'unops': unops, 'coerce': coerce,
+            'tokens': tokens, 'utokens': utokens}
